@@ -17,7 +17,7 @@ META = {
 
 def run(ctx):
     return sworld.run_static(
-        ctx, "C02", 1, variants=[{"impl": "diff", "cores": 2}],
+        ctx, "C02", 1, variants=[{"impl": "diff", "cores": 2, "max": (45, 600)}],
         sections=["lookup", "search", "each", "refs", "areas", "rels", "traverse", "problems"],
         rule="every source TLC enumerates for scenario 1 built twice (basic, compact) and all reads compared; distinct = source",
         max_cases=ctx.pick(500, None))
